@@ -182,3 +182,9 @@ case(H + "store_then_mutate_local", params={"sub": Ref("HSub"), "extra": STR}, r
      ensures={"one": "result == {extra}", "field": "sub.glyphs == result"},
      canaries={"empty": "len(result) == 0"},
      gen=lambda rng: {"extra": rng.choice(["a", "z"])}, build=lambda d: {"sub": M.HSub(), "extra": d["extra"]})
+case(H + "store_twice", params={"a": Ref("HSub"), "b": Ref("HSub"), "m": Set(STR)}, returns=INT, modifies=["HSub.glyphs"],
+     ensures={"both": "a.glyphs == m and b.glyphs == m", "m": "m == old(m)"},
+     canaries={"empty": "len(a.glyphs) == 0"},
+     gen=lambda rng: {"m": names(rng)}, build=lambda d: {"a": M.HSub(), "b": M.HSub(), "m": set(d["m"])})
+case(H + "store_twice_then_mutate", params={"a": Ref("HSub"), "b": Ref("HSub"), "m": Set(STR), "x": STR}, returns=INT, modifies=["HSub.glyphs", "m"],
+     expect="unsupported", msg="stored into two")
